@@ -657,7 +657,13 @@ func (SMRespEngine) Run(prop string, ci any) *core.Outcome {
 				} else if !sameMAC(card.delivered[k], card.genuine[k]) {
 					// same plaintext, but the MAC data object that was delivered is not the session MAC of this
 					// exchange: the response was not authenticated and must not have reached the caller
-					out.Violate("C03", "accepted-unauthenticated", sig, "attack %s(%d,%d) suite %s: delivered %x carries a MAC object different from the genuine one (%x) and was accepted", c.Attack, c.A, c.B, c.Suite, card.delivered[k], card.genuine[k])
+					oracle := "accepted-unauthenticated"
+					if stale {
+						// the withheld response happens to carry the same (empty) data and status the retried command was
+						// scripted to get: still the response of another exchange - same class as the differing case
+						oracle = "accepted-forged"
+					}
+					out.Violate("C03", oracle, sig, "attack %s(%d,%d) suite %s: delivered %x carries a MAC object different from the genuine one (%x) and was accepted", c.Attack, c.A, c.B, c.Suite, card.delivered[k], card.genuine[k])
 				} else {
 					out.Probe("benign_malleable_accepts")
 				}
